@@ -19,13 +19,20 @@ IMPORTS = 'Model.Prelude Model.L0_Pcg64 Gen.Gen_Dist Model.L1_Dist'
 class DrawLog:
     """Wraps ss.Dist.rvs / ss.Dist.jump for the duration of a run (no source change)."""
     def __init__(self, ss):
-        self.ss = ss; self.log = []; self.clean = {}; self.in_rvs = set()
+        self.ss = ss; self.log = []; self.clean = {}; self.in_rvs = set(); self.foreign = []
     def __enter__(self):
         ss = self.ss; outer = self
         self.orig_rvs, self.orig_jump = ss.Dist.rvs, ss.Dist.jump
         def rvs(d, n=1, reset=False):
             pre = d.state_int; ind = d.ind
             has32 = d.state['has_uint32'] if d.state else 0
+            # the generator SciPy will actually sample from on the scalar path of a SciPy-backed distribution
+            try:
+                rs = d.dist.random_state if (d.dist is not None and hasattr(d.dist, 'random_state')) else None
+                if rs is not None and d.initialized and rs is not d.rng:
+                    outer.foreign.append((d.trace, int(ind), int(rs.bit_generator.state['state']['state'])))
+            except Exception:
+                pass
             outer.in_rvs.add(id(d))
             try:
                 out = outer.orig_rvs(d, n, reset=reset)
@@ -54,6 +61,9 @@ def sim_configs(ss, rng, thorough):
     cfgs = []
     def add(name, f): cfgs.append((name, f))
     add('sir-random', lambda seed: ss.Sim(n_agents=120, diseases=ss.SIR(), networks=ss.RandomNet(), dur=8, rand_seed=seed, verbose=0))
+    from harness.probes import ScipyDelay
+    add('user-scipy-dists', lambda seed: ss.Sim(n_agents=80, diseases=ss.SIS(), networks=ss.RandomNet(), dur=6, rand_seed=seed, verbose=0,
+        interventions=[ScipyDelay(name='delay_a'), ScipyDelay(name='delay_b')]))
     add('sis-random-births-deaths', lambda seed: ss.Sim(n_agents=150, diseases=ss.SIS(), networks=ss.RandomNet(n_contacts=ss.poisson(4)),
         demographics=[ss.Births(birth_rate=30), ss.Deaths(death_rate=20)], dur=8, rand_seed=seed, verbose=0))
     add('two-diseases-two-nets-own-dt', lambda seed: ss.Sim(n_agents=100, diseases=[ss.SIR(dt=0.5), ss.SIS(beta=0.1)],
@@ -97,6 +107,17 @@ def run_level(ctx, ss):
                     ctx.violation(f'{name}: distributions {seeds[d.seed]} and {tr} share seed {d.seed}', dict(config=name, seed=seed))
                 seeds[d.seed] = tr
             ctx.count((name, seed)); ctx.dist('run:' + name); ctx.dist('logged draws', len(L.log))
+            fseen = {}
+            for (tr, ind, st) in L.foreign:
+                if st in fseen and fseen[st] != (tr, ind):
+                    ctx.violation(f'{name}: SciPy-backed distribution {tr} samples from a generator other than its own, whose state is used twice '
+                                  f'({fseen[st]} and {(tr, ind)})', dict(config=name, seed=seed, first=fseen[st], second=(tr, ind), state=str(st)))
+                    break
+                fseen[st] = (tr, ind)
+            if L.foreign and not any(v['witness'].get('config') == name for v in ctx.violations):
+                tr, ind, st = L.foreign[0]
+                ctx.violation(f'{name}: SciPy-backed distribution {tr} samples from a generator that is not the distribution\'s own rng (never jumped or reseeded with it)',
+                              dict(config=name, seed=seed, trace=tr, ind=ind))
             # oracle on the implementation: pairwise distinct start states; per-dist strictly increasing indices
             seen = {}
             last = {}
